@@ -42,7 +42,7 @@ func genConc(t *rapid.T, bounded bool) concProg {
 	cfg := sim.GenConfig{MaxReplicas: 3, MaxOps: 14, MinOps: 2, Codecs: []int{0}, AppendBias: 2, NoRebuild: true, NoSetID: true}
 	p := concProg{Setup: sim.Gen(t, cfg)}
 	nt := rapid.IntRange(2, 4).Draw(t, "threads")
-	kinds := []string{"append", "append", "append", "joinin", "joinin", "joinbad", "values", "heads", "entries", "snapshot", "gethas", "len", "iterator", "jsonlog", "publish", "setid", "tostring"}
+	kinds := []string{"append", "append", "append", "joinin", "joinin", "joinbad", "values", "heads", "entries", "snapshot", "gethas", "len", "iterator", "iterstream", "jsonlog", "publish", "setid", "tostring"}
 	if bounded {
 		kinds = append(kinds, "joinbounded")
 	}
@@ -72,6 +72,7 @@ type shared struct {
 	joined  world.Set // union of successfully joined source sets
 	results []readRec
 	bounded bool
+	free    bool // free-running engine: goroutines outside the program's threads may be started
 	errs    []string
 	// optional callbacks around appends (property-specific engines)
 	onAppendStart func(tid int)
@@ -267,6 +268,52 @@ func (s *shared) do(tid, oi int, op cop) {
 			seq = append(seq, e.GetHash().String())
 		}
 		rec(readRec{seq: seq, kind: "iterator"})
+	case "iterstream":
+		// an iteration streamed to a consumer that writes to the log while it is being served: the iterator
+		// runs on its own goroutine and hands entries over an unbuffered channel, the consumer appends after
+		// the first one. (Under the cooperative engine extra goroutines are not schedulable: there the
+		// iteration completes into a buffer first.)
+		var seq []string
+		if !s.free {
+			ch := make(chan iface.IPFSLogEntry, 4096)
+			if err := l.Iterator(&ipfslog.IteratorOptions{}, ch); err != nil {
+				s.fail("T%d op %d: iterator failed: %v", tid, oi, err)
+				return
+			}
+			for e := range ch {
+				seq = append(seq, e.GetHash().String())
+			}
+			s.do(tid, oi, cop{Kind: "append", Arg: op.Arg})
+		} else {
+			ch := make(chan iface.IPFSLogEntry)
+			errc := make(chan error, 1)
+			go func() { errc <- l.Iterator(&ipfslog.IteratorOptions{}, ch) }()
+			wrote := false
+		loop:
+			for {
+				select {
+				case e, ok := <-ch:
+					if !ok {
+						break loop
+					}
+					seq = append(seq, e.GetHash().String())
+					if !wrote {
+						wrote = true
+						s.do(tid, oi, cop{Kind: "append", Arg: op.Arg})
+					}
+				case err := <-errc:
+					if err != nil {
+						s.fail("T%d op %d: iterator failed: %v", tid, oi, err)
+						return
+					}
+					errc = nil // returned: the channel is closed next
+				}
+			}
+			if !wrote {
+				s.do(tid, oi, cop{Kind: "append", Arg: op.Arg})
+			}
+		}
+		rec(readRec{seq: seq, kind: "iterator"})
 	case "jsonlog":
 		rec(readRec{heads: world.CidHashes(l.ToJSONLog().Heads)})
 	case "publish":
@@ -310,7 +357,7 @@ func (s *shared) checkReads(tb ev.TB, finalSet world.Set) {
 				tb.Fatalf("%s returned %s which the log does not hold at the end", where, world.Short(h))
 			}
 		}
-		if r.kind == "iterator" {
+		if r.kind == "iterator" || r.kind == "iterstream" {
 			seen := world.Set{}
 			for i, h := range r.seq {
 				if seen.Has(h) {
